@@ -1,1 +1,174 @@
-//! C14 — (harnesses not written yet)
+//! C14 — with an index, records are located by the index alone.
+use crate::c13::assert_read_equals_stored;
+use crate::env::*;
+use crate::model::*;
+use crate::refcodec::*;
+use shapefile::record::{ConcreteReadableShape, ReadableShape, WritableShape};
+use shapefile::*;
+
+/// Physical layout: records (in logical numbering 0..n) are stored in the order `order`,
+/// with `fill[j]` filler words (16-bit) before the j-th stored record and `fill[n]` after the
+/// last; filler bytes are symbolic. The index lists the records in logical order. The header
+/// length covers the whole file.
+pub fn layout<S: TShape, const N: usize>(specs: &[Spec], order: &[usize], fill: &[usize]) {
+    let n = specs.len();
+    let mut img: [u8; N] = kani::any();
+    let mut idx = [0u8; 160];
+    let mut models = [Model::empty(S::CODE); MAXR];
+    let mut offs = [0usize; MAXR];
+    let mut lens = [0usize; MAXR];
+    let mut p = 100;
+    let mut j = 0;
+    while j < n {
+        p += 2 * fill[j];
+        let r = order[j];
+        let mut m = sym_spec(S::CODE, &specs[r]);
+        m.with_m = may_have_m(S::CODE);
+        let mut c = 0;
+        while c < 8 {
+            m.bbox[c] = any_f64();
+            c += 1;
+        }
+        let e = enc_record(&m, (r + 1) as i32, &mut img, p);
+        models[r] = m;
+        offs[r] = p;
+        lens[r] = e - p - 8;
+        p = e;
+        j += 1;
+    }
+    p += 2 * fill[n];
+    assert!(p <= N);
+    enc_header(&mut img, p, S::CODE, &[0.0; 8]);
+    let mut q = 100;
+    let mut r = 0;
+    while r < n {
+        q = enc_index_entry(&mut idx, q, offs[r], lens[r]);
+        r += 1;
+    }
+    enc_header(&mut idx, q, S::CODE, &[0.0; 8]);
+
+    let mut rd = ShapeReader::with_shx(MemSource::with_len(&img, p), MemSource::with_len(&idx, q));
+    match &mut rd {
+        Ok(rd) => {
+            let c = rd.shape_count();
+            assert!(matches!(c, Ok(k) if k == n));
+            std::mem::forget(c);
+            {
+                let mut it = rd.iter_shapes_as::<S>();
+                let mut r = 0;
+                while r < n {
+                    let item = it.next();
+                    match &item {
+                        Some(Ok(s)) => assert_read_equals_stored::<S>(&models[r], &s.extract()),
+                        Some(Err(_)) => assert!(false, "iteration failed on a record the index addresses"),
+                        None => assert!(false, "iteration ended before the index was exhausted (record dropped)"),
+                    }
+                    std::mem::forget(item);
+                    r += 1;
+                }
+                let item = it.next();
+                assert!(item.is_none(), "iteration yields more items than index entries");
+                std::mem::forget(item);
+            }
+            let mut r = 0;
+            while r < n {
+                let item = rd.read_nth_shape_as::<S>(r);
+                match &item {
+                    Some(Ok(s)) => assert_read_equals_stored::<S>(&models[r], &s.extract()),
+                    _ => assert!(false, "random access failed on a record the index addresses"),
+                }
+                std::mem::forget(item);
+                r += 1;
+            }
+        }
+        Err(_) => assert!(false, "reader could not be opened"),
+    }
+    std::mem::forget(rd);
+    kani::cover!(true, "layout read through the index");
+}
+
+const PT: Spec = spec(&[]);
+const PL2: Spec = spec(&[2]);
+const PL3: Spec = spec(&[3]);
+
+macro_rules! lay {
+    ($name:ident, $T:ty, $N:expr, $specs:expr, $order:expr, $fill:expr) => {
+        #[kani::proof]
+        #[kani::unwind(34)]
+        fn $name() {
+            layout::<$T, $N>(&$specs, &$order, &$fill);
+        }
+    };
+}
+// H: tier=quick; unwind=34; sym=payload of 2 Points, filler bytes; layout=physical order [0,1], filler words [0,4,0] (4 words between the records); asserts=iteration yields one shape per index entry in index order, each equal to the record at its offset and to read_nth_shape(i); shape_count == n
+lay!(c14_q_points_gap_between, Point, 256, [PT, PT], [0, 1], [0, 4, 0]);
+// H: tier=quick; unwind=34; sym=payload, filler; layout=physical order [0,1], filler [1,0,4] (before the first record and after the last); asserts=as above
+lay!(c14_q_points_gap_before_and_after, Point, 256, [PT, PT], [0, 1], [1, 0, 4]);
+// H: tier=quick; unwind=34; sym=payload; layout=physical order [1,0] (second record stored first), no filler; asserts=as above
+lay!(c14_q_points_swapped, Point, 256, [PT, PT], [1, 0], [0, 0, 0]);
+// H: tier=manual; unwind=34; sym=payload, filler; layout=Polylines of 2 and 3 points stored as [1,0] with filler [1,4,1]; asserts=as above (records of different sizes); note=not run: with a gap or a swap the iterator's position after a record read through `?` is not a constant for CBMC, the next record is read at a symbolic offset and the vertex loops become unbounded (no result in 900 s). The index logic is independent of the record type and is covered with Point records.
+lay!(c14_q_polylines_swapped_with_gaps, Polyline, 416, [PL2, PL3], [1, 0], [1, 4, 1]);
+// H: tier=quick; unwind=34; sym=payload; layout=3 Points stored as [2,0,1], no filler; asserts=as above
+lay!(c14_q_points3_rotated, Point, 288, [PT, PT, PT], [2, 0, 1], [0, 0, 0, 0]);
+// H: tier=quick; unwind=34; sym=payload; layout=3 Points in order, no filler (the layout the writer produces); asserts=as above
+lay!(c14_q_points3_plain, Point, 288, [PT, PT, PT], [0, 1, 2], [0, 0, 0, 0]);
+// H: tier=thorough; unwind=34; sym=payload of 3 Points, filler bytes; layout=physical order [0, 1, 2], filler words [1, 0, 0, 0]; asserts=as c14_q_points_gap_between
+lay!(c14_t_points3_012_f1000, Point, 320, [PT, PT, PT], [0, 1, 2], [1, 0, 0, 0]);
+// H: tier=thorough; unwind=34; sym=payload of 3 Points, filler bytes; layout=physical order [0, 1, 2], filler words [0, 4, 0, 1]; asserts=as c14_q_points_gap_between
+lay!(c14_t_points3_012_f0401, Point, 320, [PT, PT, PT], [0, 1, 2], [0, 4, 0, 1]);
+// H: tier=thorough; unwind=34; sym=payload of 3 Points, filler bytes; layout=physical order [0, 1, 2], filler words [4, 1, 4, 0]; asserts=as c14_q_points_gap_between
+lay!(c14_t_points3_012_f4140, Point, 320, [PT, PT, PT], [0, 1, 2], [4, 1, 4, 0]);
+// H: tier=thorough; unwind=34; sym=payload of 3 Points, filler bytes; layout=physical order [0, 2, 1], filler words [0, 0, 0, 0]; asserts=as c14_q_points_gap_between
+lay!(c14_t_points3_021_f0000, Point, 320, [PT, PT, PT], [0, 2, 1], [0, 0, 0, 0]);
+// H: tier=thorough; unwind=34; sym=payload of 3 Points, filler bytes; layout=physical order [0, 2, 1], filler words [1, 0, 0, 0]; asserts=as c14_q_points_gap_between
+lay!(c14_t_points3_021_f1000, Point, 320, [PT, PT, PT], [0, 2, 1], [1, 0, 0, 0]);
+// H: tier=thorough; unwind=34; sym=payload of 3 Points, filler bytes; layout=physical order [0, 2, 1], filler words [0, 4, 0, 1]; asserts=as c14_q_points_gap_between
+lay!(c14_t_points3_021_f0401, Point, 320, [PT, PT, PT], [0, 2, 1], [0, 4, 0, 1]);
+// H: tier=thorough; unwind=34; sym=payload of 3 Points, filler bytes; layout=physical order [0, 2, 1], filler words [4, 1, 4, 0]; asserts=as c14_q_points_gap_between
+lay!(c14_t_points3_021_f4140, Point, 320, [PT, PT, PT], [0, 2, 1], [4, 1, 4, 0]);
+// H: tier=thorough; unwind=34; sym=payload of 3 Points, filler bytes; layout=physical order [1, 0, 2], filler words [0, 0, 0, 0]; asserts=as c14_q_points_gap_between
+lay!(c14_t_points3_102_f0000, Point, 320, [PT, PT, PT], [1, 0, 2], [0, 0, 0, 0]);
+// H: tier=thorough; unwind=34; sym=payload of 3 Points, filler bytes; layout=physical order [1, 0, 2], filler words [1, 0, 0, 0]; asserts=as c14_q_points_gap_between
+lay!(c14_t_points3_102_f1000, Point, 320, [PT, PT, PT], [1, 0, 2], [1, 0, 0, 0]);
+// H: tier=thorough; unwind=34; sym=payload of 3 Points, filler bytes; layout=physical order [1, 0, 2], filler words [0, 4, 0, 1]; asserts=as c14_q_points_gap_between
+lay!(c14_t_points3_102_f0401, Point, 320, [PT, PT, PT], [1, 0, 2], [0, 4, 0, 1]);
+// H: tier=thorough; unwind=34; sym=payload of 3 Points, filler bytes; layout=physical order [1, 0, 2], filler words [4, 1, 4, 0]; asserts=as c14_q_points_gap_between
+lay!(c14_t_points3_102_f4140, Point, 320, [PT, PT, PT], [1, 0, 2], [4, 1, 4, 0]);
+// H: tier=thorough; unwind=34; sym=payload of 3 Points, filler bytes; layout=physical order [1, 2, 0], filler words [0, 0, 0, 0]; asserts=as c14_q_points_gap_between
+lay!(c14_t_points3_120_f0000, Point, 320, [PT, PT, PT], [1, 2, 0], [0, 0, 0, 0]);
+// H: tier=thorough; unwind=34; sym=payload of 3 Points, filler bytes; layout=physical order [1, 2, 0], filler words [1, 0, 0, 0]; asserts=as c14_q_points_gap_between
+lay!(c14_t_points3_120_f1000, Point, 320, [PT, PT, PT], [1, 2, 0], [1, 0, 0, 0]);
+// H: tier=thorough; unwind=34; sym=payload of 3 Points, filler bytes; layout=physical order [1, 2, 0], filler words [0, 4, 0, 1]; asserts=as c14_q_points_gap_between
+lay!(c14_t_points3_120_f0401, Point, 320, [PT, PT, PT], [1, 2, 0], [0, 4, 0, 1]);
+// H: tier=thorough; unwind=34; sym=payload of 3 Points, filler bytes; layout=physical order [1, 2, 0], filler words [4, 1, 4, 0]; asserts=as c14_q_points_gap_between
+lay!(c14_t_points3_120_f4140, Point, 320, [PT, PT, PT], [1, 2, 0], [4, 1, 4, 0]);
+// H: tier=thorough; unwind=34; sym=payload of 3 Points, filler bytes; layout=physical order [2, 0, 1], filler words [1, 0, 0, 0]; asserts=as c14_q_points_gap_between
+lay!(c14_t_points3_201_f1000, Point, 320, [PT, PT, PT], [2, 0, 1], [1, 0, 0, 0]);
+// H: tier=thorough; unwind=34; sym=payload of 3 Points, filler bytes; layout=physical order [2, 0, 1], filler words [0, 4, 0, 1]; asserts=as c14_q_points_gap_between
+lay!(c14_t_points3_201_f0401, Point, 320, [PT, PT, PT], [2, 0, 1], [0, 4, 0, 1]);
+// H: tier=thorough; unwind=34; sym=payload of 3 Points, filler bytes; layout=physical order [2, 0, 1], filler words [4, 1, 4, 0]; asserts=as c14_q_points_gap_between
+lay!(c14_t_points3_201_f4140, Point, 320, [PT, PT, PT], [2, 0, 1], [4, 1, 4, 0]);
+// H: tier=thorough; unwind=34; sym=payload of 3 Points, filler bytes; layout=physical order [2, 1, 0], filler words [0, 0, 0, 0]; asserts=as c14_q_points_gap_between
+lay!(c14_t_points3_210_f0000, Point, 320, [PT, PT, PT], [2, 1, 0], [0, 0, 0, 0]);
+// H: tier=thorough; unwind=34; sym=payload of 3 Points, filler bytes; layout=physical order [2, 1, 0], filler words [1, 0, 0, 0]; asserts=as c14_q_points_gap_between
+lay!(c14_t_points3_210_f1000, Point, 320, [PT, PT, PT], [2, 1, 0], [1, 0, 0, 0]);
+// H: tier=thorough; unwind=34; sym=payload of 3 Points, filler bytes; layout=physical order [2, 1, 0], filler words [0, 4, 0, 1]; asserts=as c14_q_points_gap_between
+lay!(c14_t_points3_210_f0401, Point, 320, [PT, PT, PT], [2, 1, 0], [0, 4, 0, 1]);
+// H: tier=thorough; unwind=34; sym=payload of 3 Points, filler bytes; layout=physical order [2, 1, 0], filler words [4, 1, 4, 0]; asserts=as c14_q_points_gap_between
+lay!(c14_t_points3_210_f4140, Point, 320, [PT, PT, PT], [2, 1, 0], [4, 1, 4, 0]);
+// H: tier=thorough; unwind=34; sym=payload of Polylines of 2 and 3 points, filler bytes; layout=physical order [0, 1], filler words [0, 0, 0]; asserts=as above
+lay!(c14_t_polylines_01_f000, Polyline, 416, [PL2, PL3], [0, 1], [0, 0, 0]);
+// H: tier=manual; unwind=34; sym=payload of Polylines of 2 and 3 points, filler bytes; layout=physical order [0, 1], filler words [0, 1, 0]; asserts=as above; note=not run: with a gap or a swap the iterator's position after a record read through `?` is not a constant for CBMC, the next record is read at a symbolic offset and the vertex loops become unbounded (no result in 900 s). The index logic is independent of the record type and is covered with Point records.
+lay!(c14_t_polylines_01_f010, Polyline, 416, [PL2, PL3], [0, 1], [0, 1, 0]);
+// H: tier=manual; unwind=34; sym=payload of Polylines of 2 and 3 points, filler bytes; layout=physical order [0, 1], filler words [4, 0, 1]; asserts=as above; note=not run: with a gap or a swap the iterator's position after a record read through `?` is not a constant for CBMC, the next record is read at a symbolic offset and the vertex loops become unbounded (no result in 900 s). The index logic is independent of the record type and is covered with Point records.
+lay!(c14_t_polylines_01_f401, Polyline, 416, [PL2, PL3], [0, 1], [4, 0, 1]);
+// H: tier=manual; unwind=34; sym=payload of Polylines of 2 and 3 points, filler bytes; layout=physical order [0, 1], filler words [1, 4, 4]; asserts=as above; note=not run: with a gap or a swap the iterator's position after a record read through `?` is not a constant for CBMC, the next record is read at a symbolic offset and the vertex loops become unbounded (no result in 900 s). The index logic is independent of the record type and is covered with Point records.
+lay!(c14_t_polylines_01_f144, Polyline, 416, [PL2, PL3], [0, 1], [1, 4, 4]);
+// H: tier=manual; unwind=34; sym=payload of Polylines of 2 and 3 points, filler bytes; layout=physical order [1, 0], filler words [0, 0, 0]; asserts=as above; note=not run: with a gap or a swap the iterator's position after a record read through `?` is not a constant for CBMC, the next record is read at a symbolic offset and the vertex loops become unbounded (no result in 900 s). The index logic is independent of the record type and is covered with Point records.
+lay!(c14_t_polylines_10_f000, Polyline, 416, [PL2, PL3], [1, 0], [0, 0, 0]);
+// H: tier=manual; unwind=34; sym=payload of Polylines of 2 and 3 points, filler bytes; layout=physical order [1, 0], filler words [0, 1, 0]; asserts=as above; note=not run: with a gap or a swap the iterator's position after a record read through `?` is not a constant for CBMC, the next record is read at a symbolic offset and the vertex loops become unbounded (no result in 900 s). The index logic is independent of the record type and is covered with Point records.
+lay!(c14_t_polylines_10_f010, Polyline, 416, [PL2, PL3], [1, 0], [0, 1, 0]);
+// H: tier=manual; unwind=34; sym=payload of Polylines of 2 and 3 points, filler bytes; layout=physical order [1, 0], filler words [4, 0, 1]; asserts=as above; note=not run: with a gap or a swap the iterator's position after a record read through `?` is not a constant for CBMC, the next record is read at a symbolic offset and the vertex loops become unbounded (no result in 900 s). The index logic is independent of the record type and is covered with Point records.
+lay!(c14_t_polylines_10_f401, Polyline, 416, [PL2, PL3], [1, 0], [4, 0, 1]);
+// H: tier=manual; unwind=34; sym=payload of Polylines of 2 and 3 points, filler bytes; layout=physical order [1, 0], filler words [1, 4, 4]; asserts=as above; note=not run: with a gap or a swap the iterator's position after a record read through `?` is not a constant for CBMC, the next record is read at a symbolic offset and the vertex loops become unbounded (no result in 900 s). The index logic is independent of the record type and is covered with Point records.
+lay!(c14_t_polylines_10_f144, Polyline, 416, [PL2, PL3], [1, 0], [1, 4, 4]);
